@@ -525,7 +525,19 @@ class Interp:
             else:
                 raise LexUnknown(f"attribute store on {ast.unparse(t.value)}")
         elif isinstance(t, (ast.Tuple, ast.List)):
-            vs = self.iterate(v)
+            vs = list(self.iterate(v))
+            stars = [i for i, a in enumerate(t.elts) if isinstance(a, ast.Starred)]
+            if len(stars) == 1:
+                i = stars[0]
+                after = len(t.elts) - i - 1
+                if len(vs) < len(t.elts) - 1:
+                    raise PyRaise(ValueError("not enough values to unpack"))
+                for a, b in zip(t.elts[:i], vs[:i]):
+                    self.assign(a, b, env)
+                self.assign(t.elts[i].value, list(vs[i:len(vs) - after]), env)
+                for a, b in zip(t.elts[i + 1:], vs[len(vs) - after:] if after else []):
+                    self.assign(a, b, env)
+                return
             if len(vs) != len(t.elts):
                 raise PyRaise(ValueError("unpack"))
             for a, b in zip(t.elts, vs):
